@@ -332,7 +332,6 @@ class _Quantifier(_UnaryOperator):
 
     def add_data(self, facts: Union[Tuple[float, float], Fact, Set]):
         super().add_data(facts)
-        self._set_activation(world=self.world)
 
 
 class Not(_UnaryOperator):
